@@ -100,6 +100,13 @@ class AB:
         self.files[name] = content
         self.exp["untouched"].append(name)
 
+    def local_dir(self, name, inner):
+        """an existing local directory with files in it: for std::filesystem::exists it is there like a file"""
+        self.dirs = getattr(self, "dirs", {})
+        self.dirs[name] = dict(inner)
+        for f in inner:
+            self.exp["untouched"].append(name + b"/" + f)
+
     # ---- offline commands
     def offline(self, verb=None, args=None):
         rng = self.rng
@@ -254,6 +261,7 @@ class AB:
         if not self.connected:
             return name
         creatable = 0 < len(name) <= 255 and b"/" not in name and name not in (b".", b"..") and name not in self.files \
+            and name not in getattr(self, "dirs", {}) \
             and name not in self.exp["present"] and name not in self.maybe
         # (a refused or failed-completion download removes the file again: the name stays free)
         if creatable:
@@ -292,7 +300,8 @@ class AB:
 
     def scenario(self, family):
         return dict(family=family, sessions=self.b.sessions, files=dict(self.files), lines=list(self.lines),
-                    exp=self.exp, exact=self.exact, bexp=self.b.exp, ended_by_exit=self.ended)
+                    exp=self.exp, exact=self.exact, bexp=self.b.exp, ended_by_exit=self.ended,
+                    dirs=dict(getattr(self, "dirs", {})))
 
 
 # ---------------------------------------------------------------------------------------------- families
@@ -487,16 +496,28 @@ def fam_files(rng, n, dist):
         pct = rng.choice([b"100%", b"a%20b.txt", b"%1%", b"50%.txt", b"%s%d%n"])
         a.local_file(pct, b"percent")
         a.local_file(b"other.bin", S_payload(rng))
+        a.local_dir(b"downloads", {b"report.txt": b"local report\n", b"r.bin": b"local r\n"})
         a.open((220,))
         for _ in range(rng.choice([2, 4, 7])):
             if not a.connected:
                 break
             k = rng.choice(["existing", "existing-derived", "overlong", "overlong-derived", "nodir", "empty-name", "refused-setup",
-                            "refused-cmd", "complete", "complete-derived", "len255", "again", "percent-uncreatable"])
+                            "refused-cmd", "complete", "complete-derived", "len255", "again", "percent-uncreatable",
+                            "existing-dir", "existing-dir"])
             dist.add("get-case:" + k)
             i = len(a.lines)
             if k == "existing":
                 a.get(b"/pub/whatever", rng.choice([b"precious.txt", pct]))
+            elif k == "existing-dir":
+                # the local name is an existing directory that holds a file named like the remote one: it "already
+                # exists"; nothing in it may be written, truncated or removed - whether the server would serve or refuse
+                r = rng.random()
+                if r < 0.4:
+                    a.get(rng.choice([b"/pub/report.txt", b"r.bin"]), b"downloads")
+                elif r < 0.7:
+                    a.get(b"downloads")                                   # derived local name = the directory's
+                else:
+                    a.get(rng.choice([b"/pub/report.txt", b"/pub/downloads"]), b"downloads")
             elif k == "percent-uncreatable":
                 a.get(b"/pub/whatever", rng.choice([b"nodir/%1%", b"nodir/100%.bin", b"%" * 300]))
             elif k == "existing-derived":
@@ -551,6 +572,11 @@ def run_real(scn, exe, workdir):
     for n, c in scn["files"].items():
         with open(os.path.join(wd, n), "wb") as f:
             f.write(c)
+    for dn, inner in scn.get("dirs", {}).items():
+        os.makedirs(os.path.join(wd, dn))
+        for n, c in inner.items():
+            with open(os.path.join(wd, dn, n), "wb") as f:
+                f.write(c)
     pc = peerlib.PeerCase(scn["sessions"], "12")
     endpoints = {k: pc.endpoint(k) for k in range(len(scn["sessions"]))}
     lines = [subst_line(l, endpoints) for l in scn["lines"]]
@@ -571,6 +597,11 @@ def run_real(scn, exe, workdir):
                 files[n] = f.read()
         else:
             files[n] = None
+            for sub in os.listdir(pth):
+                sp = os.path.join(pth, sub)
+                if os.path.isfile(sp):
+                    with open(sp, "rb") as f:
+                        files[n + b"/" + sub] = f.read()
     shutil.rmtree(workdir, ignore_errors=True)
     return dict(status=status, rc=rc, stdout=out, stderr=err, files=files, peer=pc.log, lines=lines, wall=time.time() - t0)
 
@@ -583,9 +614,12 @@ def model_line(scn, lines):
         out.append(str(len(s["reactions"])))
         for ri, r in enumerate(s["reactions"]):
             out += P.ser_reaction(r, P.MODEL_PORT + ri)
-    out.append(str(len(scn["files"])))
+    dirs = scn.get("dirs", {})
+    out.append(str(len(scn["files"]) + len(dirs)))
     for n in sorted(scn["files"]):
         out += [H(n), H(scn["files"][n])]
+    for n in sorted(dirs):
+        out += [H(n), H(b"")]          # a directory: a name that exists (the model's file system is flat)
     out.append(str(len(lines)))
     out += [H(l) for l in lines]
     return " ".join(out)
@@ -703,6 +737,14 @@ def correspondence(scn, res):
         at = pre.end() if pre else 0
         dis.append(("stdout(item %d)" % k, so[at:at + 200].decode("latin-1"), show_items(m["out"][k:k + 4])))
     rf = {n: c for n, c in res["files"].items()}
+    # the model's file system is flat: a scripted directory is a name that exists; the files inside it are outside the
+    # model (the oracle checks that they are untouched) - anything ELSE that appears inside stays in the comparison
+    for dn, inner in scn.get("dirs", {}).items():
+        if dn in rf and rf[dn] is None:
+            rf[dn] = b""
+        for f, c in inner.items():
+            if rf.get(dn + b"/" + f) == c:
+                del rf[dn + b"/" + f]
     if rf != m["fs"]:
         names = sorted(set(rf) ^ set(m["fs"])) or sorted(n for n in rf if rf[n] != m["fs"].get(n))
         dis.append(("working-directory", "differs at %r: %r" % (names[:3], [(rf.get(n) or b"")[:20] if n in rf else None for n in names[:3]]),
@@ -767,8 +809,12 @@ def oracles(scn, res):
         if conns:
             v.append(("app/offline-network-activity", "the peer saw connections %r although no open was given" % conns))
     # get never overwrites or deletes a local file that already existed
+    orig = dict(scn["files"])
+    for dn, inner in scn.get("dirs", {}).items():
+        for f, c in inner.items():
+            orig[dn + b"/" + f] = c
     for n in exp["untouched"]:
-        if res["files"].get(n) != scn["files"][n]:
+        if res["files"].get(n) != orig[n]:
             v.append(("app/existing-file-touched", "local file %r %s" % (n, "was deleted" if n not in res["files"] else "was modified")))
     # ... and removes the file it created when the server refuses the download
     if res["rc"] == 0:
@@ -779,7 +825,7 @@ def oracles(scn, res):
             if n not in res["files"] or (res["files"][n] != c and not exp.get("ascii_used")):
                 v.append(("app/download-content", "%r: %s" % (n, "missing" if n not in res["files"] else "content differs")))
         # nothing else appears in the working directory
-        extra = [n for n in res["files"] if n not in scn["files"] and n not in exp["present"]]
+        extra = [n for n in res["files"] if n not in orig and n not in scn.get("dirs", {}) and n not in exp["present"]]
         allowed = set(scn.get("may_create", []))
         stray = [n for n in extra if res["files"][n] not in (b"",) and n not in allowed]
         # (an empty file may remain from a download that failed with an error: the property does not speak of it)
